@@ -18,12 +18,12 @@ class Profile:
 
     __slots__ = (
         "drop", "dup", "corrupt", "reorder", "base", "jitter", "reorder_max",
-        "burst_enter", "burst_exit", "burst_drop", "fifo",
+        "burst_enter", "burst_exit", "burst_drop", "fifo", "flip_only",
     )
 
     def __init__(self, drop=0.0, dup=0.0, corrupt=0.0, reorder=0.0, base=0.010,
                  jitter=0.0, reorder_max=0.5, burst_enter=0.0, burst_exit=0.3,
-                 burst_drop=0.9, fifo=False):
+                 burst_drop=0.9, fifo=False, flip_only=False):
         self.drop = drop
         self.dup = dup
         self.corrupt = corrupt
@@ -35,6 +35,9 @@ class Profile:
         self.burst_exit = burst_exit
         self.burst_drop = burst_drop
         self.fifo = fifo
+        # bursts that force bits to 0/1 change the datagram or not depending on its content; ciphertext content
+        # is not reproducible (OpenSSL's RNG), so encrypted traffic is only ever altered by flips
+        self.flip_only = flip_only
 
     def to_json(self):
         return {k: getattr(self, k) for k in self.__slots__}
@@ -160,6 +163,8 @@ class Link:
                     spec = ["trunc", rng.randrange(0, n + 1), 0, 0]
                 else:
                     mode = ("burst", "burst", "zero", "ones", "rand")[rng.randrange(5)]
+                    if p.flip_only:
+                        mode = "burst"
                     nbits = 32 if rng.random() < 0.3 else rng.randint(1, 32)
                     if rng.random() < 0.5:
                         # field-aligned: whole 32-bit words, biased to the packet and chunk headers
